@@ -1185,6 +1185,10 @@ def r_heapidx(P, chk):
                     kind, e = x["callee"], x["c"][3]
                 elif x["k"] == "CallExpr" and x.get("callee") == "strcpy" and key(x["c"][1]) == tgt:
                     kind, e = "strcpy", x["c"][2]
+                elif x["k"] == "CallExpr" and x.get("callee") == "sprintf" and key(x["c"][1]) == tgt and len(x["c"]) > 2:
+                    fmt = strip(x["c"][2])
+                    if fmt is not None and fmt["k"] == "StringLiteral" and "%s" not in fmt["s"]:
+                        kind, e = "sprintf", x
                 if kind is None:
                     continue
                 # the write must be governed by this allocation: the malloc assignment dominates it and no other
@@ -1203,7 +1207,41 @@ def r_heapidx(P, chk):
                 n += 1
                 ok = False
                 how = ""
-                if kind == "strcpy":
+                if kind == "sprintf":
+                    # longest possible output of an integer-only format, from the interval of every argument
+                    fmt = strip(x["c"][2])["s"]
+                    ub = ubs.get(f)
+                    if ub is None:
+                        ub = ubs[f] = UB1(f)
+                    args = x["c"][3:]
+                    total, ai, okfmt = 0, 0, True
+                    for m in re.finditer(r"%(?:%|[-+ 0#]*(\d*)(?:hh|h|ll|l|z)?([diuxXc]))|[^%]", fmt):
+                        t = m.group(0)
+                        if not t.startswith("%") or t == "%%":
+                            total += 1
+                            continue
+                        if ai >= len(args):
+                            okfmt = False
+                            break
+                        iv = ub.interval_at(args[ai], at=x)
+                        ai += 1
+                        if m.group(2) == "c":
+                            w = 1
+                        elif iv is None or iv[0] == -INF or iv[1] == INF:
+                            okfmt = False
+                            break
+                        elif m.group(2) in ("x", "X"):
+                            w = max(len("%x" % (abs(iv[0]) if iv[0] >= 0 else 2 ** 32 - 1)), len("%x" % max(iv[1], 0)))
+                        else:
+                            w = max(len(str(iv[0])), len(str(iv[1])))
+                        total += max(w, int(m.group(1) or 0))
+                    cs = const_value(size)
+                    if cs is None and S is not None and set(S) <= {1}:
+                        cs = S.get(1)
+                    ok = okfmt and cs is not None and total + 1 <= cs
+                    how = "at most %d characters + NUL into %s bytes" % (total, cs)
+                    e = x["c"][2]
+                elif kind == "strcpy":
                     need = {"strlen(%s)" % key(e): 1, 1: 1}
                     d = sub(S or {}, need) if S is not None else None
                     ok = d is not None and all(k2 == 1 for k2 in d) and d.get(1, 0) >= 0
@@ -1658,6 +1696,37 @@ def r_stalelen(P, chk):
                     args = [key(a) for a in y["c"][1:]]
                     if nm in args and (obj + "->str") in args:
                         uses.append((y, "passed to %s next to %s->str" % (y.get("callee"), obj)))
+            # (c) any other read of the snapshot, except a comparison with the current length (change detection)
+            done = {id(u) for u, _ in uses}
+            for y in f.walk():
+                if y["k"] != "DeclRefExpr" or y["n"] != nm:
+                    continue
+                p = f.parent(y)
+                if p is not None and p["k"] == "BinaryOperator" and p["op"] == "=" and strip(p["c"][0]) is y:
+                    continue
+                cmpd = False
+                for a in f.ancestors(y):
+                    if a["k"] == "BinaryOperator" and a["op"] in ("==", "!=", "<", ">", "<=", ">=") and \
+                            any(key(o) == obj + "->currentStringLength" for o in a["c"]):
+                        cmpd = True
+                    if a.get("i") in pos and a["k"] not in ("ImplicitCastExpr", "ParenExpr"):
+                        pass
+                if cmpd:
+                    continue
+                z = y
+                while z is not None and z.get("i") not in pos:
+                    z = f.parent(z)
+                if z is None or id(z) in done:
+                    continue
+                # the enclosing statement-level element
+                top = z
+                for a in f.ancestors(z):
+                    if a.get("i") in pos and a["k"] in ("CallExpr", "BinaryOperator", "CompoundAssignOperator", "ReturnStmt", "DeclStmt"):
+                        top = a
+                if id(top) in done or any(top is u for u, _ in uses):
+                    continue
+                done.add(id(top))
+                uses.append((top, "read again (%s)" % f.src(top)[:40]))
             for u, how in uses:
                 if u["i"] not in pos:
                     continue
